@@ -313,6 +313,8 @@ class Peer:
     # -- module import bodies ----------------------------------------------
     def importing(self, modname):
         """called at the top of every generated module body"""
+        if self.mode == 'ref':
+            return
         b = self.import_plan.get(modname)
         LOG.add('import_body', modname, b['kind'] if b else 'ok')
         self.import_log.append((modname, 'body', None))
